@@ -57,6 +57,9 @@ def run(ctx, facts):
         C09.dens_seed(ctx, facts, prefix)
         C09.bookkeeping(ctx, facts, prefix)
         C09.empty_guard(ctx, facts, prefix)
+    ctx.rule("DELEG", C09.RULES["DELEG"] + " — every element of the slice reaches its bin: the batch entry point is the per-item one applied to each element, then the densification")
+    for prefix in (OD, RD):
+        C04.deleg_slice(ctx, facts, prefix + "sketch_slice", finisher="densify")
     ctx.rule("U32VIEW", C09.RULES["U32VIEW"] + " (the u32 view keeps the collision structure of the u64 view only if it rehashes all 64 bits of each value)")
     C09.u32view(ctx, facts)
     ctx.rule("REINIT", C09.RULES["REINIT"])
